@@ -11,7 +11,7 @@ RULE = ("(R0) who-writes(JitterRng.data) is exactly the frozen set; for each wri
         "identity (next_u32 storing the value gen_entropy just produced). The pool is followed through summarised loops: a loop "
         "variable in the pool's location must start one-to-one from the enclosing pool, be updated one-to-one per iteration, and no "
         "branch, continuation or exit condition on the way may mention the pool (a pool-dependent choice or number of one-to-one "
-        "steps is not one-to-one)")
+        "steps is not one-to-one); a variable of a loop whose trip count depends on the pool counts as pool-dependent")
 TRUSTED = ["rustc nightly MIR", "primitive table (vf/prims.py)", "GF(2) rank computation (vf/alg.py)"]
 
 WRITERS = {"rand_jitter::JitterRng::<F>::new_with_timer", "<rand_jitter::JitterRng<F> as core::clone::Clone>::clone",
@@ -143,6 +143,8 @@ class PoolFlow(object):
                 if n in self.names:
                     continue
                 srcs = [init] + [c[1].get(n) for c in rec.conts]
+                # control dependence: a variable of a loop whose number of iterations depends on the pool carries pool information
+                srcs += [c[0] for c in rec.conts] + [x[0] for x in rec.exits]
                 if any(isinstance(x, T.T) and (T.atoms_of(x) & self.names) for x in srcs):
                     self.names.add(n)
                     changed = True
